@@ -99,10 +99,11 @@ const (
 	opWaitDelete
 	opWaitExpire
 	opSweepChase
+	opWaitUpdate
 	nOps
 )
 
-var opNames = [...]string{"createTopic", "deleteTopic", "createSub", "deleteSub", "updateSub", "publish", "pull", "ack", "modack", "seekTime", "snapshot", "seekSnap", "advance", "job", "dlSweep", "expirySweep", "setDelay", "fault", "restart", "deleteSnap", "pullAck", "chase", "nack", "waitCancel", "snapCombo", "waitDelete", "waitExpire", "sweepChase"}
+var opNames = [...]string{"createTopic", "deleteTopic", "createSub", "deleteSub", "updateSub", "publish", "pull", "ack", "modack", "seekTime", "snapshot", "seekSnap", "advance", "job", "dlSweep", "expirySweep", "setDelay", "fault", "restart", "deleteSnap", "pullAck", "chase", "nack", "waitCancel", "snapCombo", "waitDelete", "waitExpire", "sweepChase", "waitUpdate"}
 
 func baseWeights() []int {
 	w := make([]int, nOps)
@@ -199,6 +200,7 @@ func (r *Run) configure() {
 		w[opWaitCancel] = 6
 		w[opWaitDelete] = 3
 		w[opWaitExpire] = 12
+		w[opWaitUpdate] = 5
 		w[opAdvance] *= 2
 		w[opExpirySweep] = 5
 		w[opSetDelay] = 3
@@ -499,6 +501,8 @@ func (r *Run) step() *Violation {
 		return r.doWaitExpire(t.Intn(r.nSubs))
 	case opSweepChase:
 		return r.doSweepChase()
+	case opWaitUpdate:
+		return r.doWaitUpdate(t.Intn(r.nSubs))
 	case opFault:
 		if r.Variant == "order" && t.Bool(50) {
 			// a storage fault inside a publish (the predecessor lookup is one of its statements)
@@ -1898,6 +1902,97 @@ func (r *Run) doChase() *Violation {
 		r.M.probe("chase_round")
 	}
 	return nil
+}
+
+// doWaitUpdate: while a pull waits on an idle subscription, another client raises the
+// subscription's expiration TTL (mask: expiration_policy only). The pull ends by its own
+// time-out, which counts as activity; the expiry job then runs after the OLD TTL has passed
+// since, and well before the new one has: the subscription must still be there (C14: a full
+// TTL without pull activity, with the TTL that is configured).
+func (r *Run) doWaitUpdate(i int) *Violation {
+	name := subName(i)
+	ms := r.M.LiveSub(name)
+	if r.pendingFault != "" || ms == nil || ms.Cfg.TTL <= 0 || ms.Cfg.TTL > time.Hour {
+		return nil
+	}
+	now := time.Now()
+	for _, e := range ms.EDs {
+		if (e.State == stOut || e.Fuzzy) && e.mayAlive(now) && !e.LeaseLo.After(now.Add(2*time.Minute)) {
+			return nil // something is or soon becomes deliverable: the pull would not sit out its wait
+		}
+	}
+	oldTTL := ms.Cfg.TTL
+	newTTL := 24 * time.Hour
+	r.nudge(5 * time.Millisecond)
+	ctx, cancel := context.WithCancel(context.Background())
+	defer cancel()
+	var err error
+	var resp proto.Message
+	done := make(chan struct{})
+	t0 := time.Now()
+	go func() {
+		defer close(done)
+		resp, err = r.W.Call(ctx, "Pull", &pubsubpb.PullRequest{Subscription: name, MaxMessages: 10})
+	}()
+	r.Sim.Settle()
+	finished := func() bool {
+		select {
+		case <-done:
+			return true
+		default:
+			return false
+		}
+	}
+	if !finished() {
+		_, res := r.do("UpdateSubscription", &pubsubpb.UpdateSubscriptionRequest{
+			Subscription: &pubsubpb.Subscription{Name: name, ExpirationPolicy: &pubsubpb.ExpirationPolicy{Ttl: durationpb.New(newTTL)}},
+			UpdateMask:   &fieldmaskpb.FieldMask{Paths: []string{"expiration_policy"}}})
+		r.ev("UpdateSubscription %s expiration_policy ttl %v -> %v while a pull waits -> %v", name, oldTTL, newTTL, code(res.err))
+		r.cev("UpdateSubscription %s ttl %v", name, code(res.err))
+		if res.err != nil {
+			cancel()
+			<-done
+			return r.expectCode("C17", "UpdateSubscription "+name, res, codes.OK)
+		}
+		ms.Cfg.TTL = newTTL
+		r.M.ConfigChanged(ms)
+		ms.ActLo, ms.ActHi = res.t0, res.t1
+		r.Sim.Settle()
+	}
+	for k := 0; k < 70 && !finished(); k++ {
+		time.Sleep(time.Second)
+		r.Sim.Settle()
+	}
+	timedOut := finished()
+	if !timedOut {
+		cancel()
+	}
+	<-done
+	r.Sim.Settle()
+	t1 := time.Now()
+	if p, ok := isPanic(err); ok {
+		return viol("C16", "panic:Pull", "%v", p.Val)
+	}
+	r.ev("Pull %s (waiting, ttl updated meanwhile) ended after %v -> %v", name, t1.Sub(t0), code(err))
+	r.cev("PullTTL %s %v", name, code(err))
+	if err != nil || !timedOut {
+		if ms = r.M.LiveSub(name); ms != nil && ms.ActHi.Before(t1) {
+			ms.ActHi = t1
+		}
+		return nil
+	}
+	recv := toRecv(resp.(*pubsubpb.PullResponse).ReceivedMessages)
+	for _, x := range recv {
+		r.ackPool = append(r.ackPool, x.AckID)
+	}
+	if v := r.M.Pull(ms, 10, recv, t0, t1); v != nil {
+		return v
+	}
+	r.M.probe("waiting_pull_ttl_raised")
+	// the old TTL has passed since the pull's activity, the new one has not by far
+	time.Sleep(oldTTL + 2*time.Minute)
+	r.Sim.Settle()
+	return r.doExpirySweep(1000)
 }
 
 // doSweepChase brings one delivery of a dead-lettering subscription to the state only the
